@@ -30,6 +30,8 @@ EXTENDS Naturals, FiniteSets, Sequences, TLC
 
 CONSTANTS
     RedirectGuard,   \* TRUE: a redirect to plain http:// is refused in strict mode.  FALSE: StrictHTTPClient checks the first request only (F14)
+    AuthPassesStrictMode,  \* TRUE: Auth.IAMClient() hands the node's strict mode to the IAM client.  FALSE: auth.strictMode is declared and
+                     \*       read but never assigned, the IAM client of a running node validates URLs with ParsePublicURL(.., false)
     Urls, Tls, Cryptos, Sqls, Irmas, DidMethods, Moved, Secrets, SecretVia,   \* option classes
     OutUrls, OutEntries, Contexts, AllowLists                                    \* action classes
 
@@ -129,11 +131,13 @@ OutRedirect(u)   == u = "https-redirect-http"
 OutUnlisted(u)   == u \in {"https-ip", "http-ip", "https-reserved"}  \* refused by core.ParsePublicURL(strict) only
 \* entries that validate the URL with core.ParsePublicURL before handing it to the StrictHTTPClient
 EntryParsesPublicURL(e) == e \notin {"strict-client", "rfc003", "iam-credentials"}
-OutboundVerdict(vv, u, e) ==
+\* iamStrict: the strict-mode flag the IAM client was constructed with
+OutboundVerdictWith(vv, u, e, iamStrict) ==
     IF ~vv.strict THEN "performed"
-    ELSE IF OutHttp(u) THEN "refused"                               \* StrictHTTPClient.Do / relyingParty / ParsePublicURL
-    ELSE IF OutUnlisted(u) /\ EntryParsesPublicURL(e) THEN "refused"
+    ELSE IF OutHttp(u) THEN "refused"                               \* StrictHTTPClient.Do / relyingParty (/ ParsePublicURL)
+    ELSE IF OutUnlisted(u) /\ EntryParsesPublicURL(e) /\ iamStrict THEN "refused"
     ELSE "performed"
+OutboundVerdict(vv, u, e) == OutboundVerdictWith(vv, u, e, AuthPassesStrictMode)
 \* does a plain-HTTP request leave the node?
 PlainHttpSent(vv, u, e) == \/ (OutHttp(u) /\ OutboundVerdict(vv, u, e) = "performed")
                            \/ (OutRedirect(u) /\ OutboundVerdict(vv, u, e) = "performed" /\ ~(vv.strict /\ RedirectGuard))
